@@ -1,9 +1,186 @@
-(* Property C01 - only statements closed by `exact`, each followed by Print Assumptions. *)
-From Coq Require Import ZArith List.
-From Avl Require Import AvlSpec AvlModel AvlProofs.
+(* Property C01 - "Map and MultiMap stay sorted, complete and logarithmically deep".
+   Only statements closed by `exact`, each followed by Print Assumptions, plus non-vacuity Examples.
+
+   Objects.  Model = AvlModel (tree with STORED heights, rebal/shiftl/shiftr/rotl/rotr, descending
+   insert, hinted insert with the code's four neighbour tests, removal with the code's
+   successor/predecessor choice, find/count, copy = sequential inserts, insert(other) = plain +
+   hinted inserts; two containers `a`/`b`, `OSel` selects).  Reference = AvlSpec (sorted list of
+   (key, value, slot); slot = identity of the Item).  abs = in-order sequences of the two trees.
+   Inv f st  =  for both containers:  bal (stored height = 1 + max of the children's stored heights,
+   hence = real height [reachable_balanced]; heights of the two children differ by at most 1, at every
+   node)  /\  sorted f (in-order sequence; strict for Map, non-strict for MultiMap)  /\  _size = number
+   of nodes.
+
+   Clause of the property text                                    -> theorem
+   ------------------------------------------------------------------------------------------------
+   "after any sequence of inserts (plain/hinted), removals by key/iterator, removeFront/removeBack,
+    clear, copy and bulk insert"                                   -> all theorems quantify over
+                                                                      `ops : list op` (every history)
+   invariant holds initially / is kept by every operation         -> avl_invariant_initially,
+                                                                      avl_invariant_preserved,
+                                                                      avl_invariant_reachable
+   rotations keep the order; re-balancing a node whose subtrees
+   are balanced and differ by <= 2 restores balance               -> rebal_keeps_order, rebal_restores_balance
+   "iterate their entries in ascending key order", size            -> reachable_sorted_and_counted
+   "MultiMap keeps plainly inserted equal keys in insertion order" -> multimap_plain_insert_after_equal_keys
+   "agree with a reference sorted (multi)map on size, contents,
+    find/contains, count, front/back and the iterator each
+    operation returns"                                             -> step_refines_reference (one op),
+                                                                      history_refines_reference (all ops,
+                                                                      results and final contents),
+                                                                      reference_never_rejects (the position a
+                                                                      hinted MultiMap insert chose is always one
+                                                                      that keeps the sequence sorted)
+   "finding any key among n entries needs at most
+    2*floor(1.4405*log2(n+2)) key comparisons"                     -> find_cost_logarithmic (integer form, no
+                                                                      axioms: floor(1.4405*log2 m) =
+                                                                      Z.log2 (m^14405) / 10000),
+                                                                      find_cost_logarithmic_real (ln/Int_part),
+                                                                      height_logarithmic, fibonacci_size_bound
+   Not theorems (validated by the correspondence run only): the threaded prev/next list equals the
+   in-order walk, parent links, the stored `slope` field, and that the code's "stop when the height
+   did not change" shortcuts compute the tree of the model (shape and stored heights are compared
+   after every operation). *)
+From Coq Require Import ZArith List Reals.
+From Avl Require Import AvlSpec AvlModel AvlLists AvlBalance AvlOrder AvlInv AvlRefine AvlCost AvlCostReal.
 Import ListNotations.
 Local Open Scope Z_scope.
 
-Theorem rotr_keeps_order : forall t, inorder (rotr t) = inorder t.
-Proof. exact inorder_rotr. Qed.
-Print Assumptions rotr_keeps_order.
+(* ---- (1) the invariant ------------------------------------------------------------------------------ *)
+Theorem avl_invariant_initially : forall f, Inv f m_init.
+Proof. exact inv_init. Qed.
+Print Assumptions avl_invariant_initially.
+
+Theorem avl_invariant_preserved : forall f st o, Inv f st -> Inv f (fst (step f st o)).
+Proof. exact step_inv. Qed.
+Print Assumptions avl_invariant_preserved.
+
+Theorem avl_invariant_reachable : forall f ops, Inv f (run f m_init ops).
+Proof. exact run_inv. Qed.
+Print Assumptions avl_invariant_reachable.
+
+Theorem rebal_keeps_order : forall t, inorder (rebal t) = inorder t.
+Proof. exact inorder_rebal. Qed.
+Print Assumptions rebal_keeps_order.
+
+Theorem rebal_restores_balance : forall l k v s r,
+  bal l -> bal r -> (ht l <= ht r + 2)%nat -> (ht r <= ht l + 2)%nat ->
+  let t' := rebal (mk l k v s r) in
+  bal t' /\ inorder t' = inorder l ++ (k, v, s) :: inorder r /\
+  (ht t' <= S (Nat.max (ht l) (ht r)))%nat /\ (Nat.max (ht l) (ht r) <= ht t')%nat /\
+  ((ht l <= S (ht r))%nat -> (ht r <= S (ht l))%nat -> t' = mk l k v s r).
+Proof. exact rebal_spec. Qed.
+Print Assumptions rebal_restores_balance.
+
+Theorem reachable_sorted_and_counted : forall f ops,
+  let c := m_sel (run f m_init ops) in
+  sorted f (inorder (tr c)) /\ sz c = length (inorder (tr c)).
+Proof. exact reachable_sorted. Qed.
+Print Assumptions reachable_sorted_and_counted.
+
+Theorem reachable_balanced_heights_exact : forall f ops,
+  let t := tr (m_sel (run f m_init ops)) in bal t /\ ht t = height t.
+Proof. exact reachable_balanced. Qed.
+Print Assumptions reachable_balanced_heights_exact.
+
+Theorem multimap_plain_insert_after_equal_keys : forall ops k v,
+  let st := run FMulti m_init ops in
+  let l := inorder (tr (m_sel st)) in
+  let st' := fst (step FMulti st (OIns k v)) in
+  inorder (tr (m_sel st')) =
+    filter (fun e => ekey e <=? k) l ++ (k, v, m_next st) :: filter (fun e => negb (ekey e <=? k)) l.
+Proof. exact multimap_insert_after_equal. Qed.
+Print Assumptions multimap_plain_insert_after_equal_keys.
+
+(* ---- (2) refinement ------------------------------------------------------------------------------------ *)
+Theorem step_refines_reference : forall f st o,
+  Inv f st ->
+  spec_step f (abs st) o (choice_of f st o) = (abs (fst (step f st o)), fst (snd (step f st o))).
+Proof. exact step_refines. Qed.
+Print Assumptions step_refines_reference.
+
+Theorem history_refines_reference : forall f ops,
+  s_trace f s_init ops (m_choices f m_init ops) = (m_trace f m_init ops, abs (run f m_init ops)).
+Proof. exact trace_refines. Qed.
+Print Assumptions history_refines_reference.
+
+Theorem reference_never_rejects : forall f ops, ~ In RBad (m_trace f m_init ops).
+Proof. exact trace_not_bad_init. Qed.
+Print Assumptions reference_never_rejects.
+
+(* ---- (3) cost ------------------------------------------------------------------------------------------- *)
+Theorem fibonacci_size_bound : forall t, bal t -> (fib (ht t + 2) <= size t + 1)%nat.
+Proof. exact size_lower_bound. Qed.
+Print Assumptions fibonacci_size_bound.
+
+Theorem height_logarithmic : forall f ops,
+  let t := tr (m_sel (run f m_init ops)) in
+  Z.of_nat (height t) <= Z.log2 ((Z.of_nat (size t) + 2) ^ 14405) / 10000.
+Proof. exact height_bound. Qed.
+Print Assumptions height_logarithmic.
+
+Theorem find_cost_logarithmic : forall f ops k,
+  let st := run f m_init ops in
+  Z.of_nat (snd (snd (step f st (OFind k)))) <= cost_bound (sz (m_sel st)).
+Proof. exact find_cost. Qed.
+Print Assumptions find_cost_logarithmic.
+
+Theorem find_cost_logarithmic_real : forall f ops k,
+  let st := run f m_init ops in
+  Z.of_nat (snd (snd (step f st (OFind k)))) <= cost_bound_real (sz (m_sel st)).
+Proof. exact find_cost_real. Qed.
+Print Assumptions find_cost_logarithmic_real.
+
+(* ---- non-vacuity ----------------------------------------------------------------------------------------- *)
+Definition ex_ops_map : list op :=
+  [OIns 5 50; OIns 3 30; OIns 8 80; OIns 1 10; OIns 4 40; OIns 7 70; OIns 9 90; OIns 2 20;
+   OHint 0 0 1; OHint 99 10 100; OHint 3 3 33; ORemAt 4; ORemKey 5; OFind 9; OHas 5; OCount 3;
+   OFront; OBack; ORemFront; ORemBack; OSel true; OIns 100 1; OIns 4 44; OBulk; OSel false; OCopy].
+Definition ex_ops_multi : list op :=
+  [OIns 5 1; OIns 5 2; OIns 3 3; OIns 5 4; OHint 1 5 5; OHint 0 3 6; OHint 9 7 7; OIns 3 8;
+   OCount 5; OFind 5; ORemKey 5; OCount 5; OFind 3; ORemAt 2; OBack].
+
+(* a reachable Map state with rotations, two-child removal, hinted inserts, bulk insert and copy behind it *)
+Example ex_reachable_map :
+  tr (m_sel (run FMap m_init ex_ops_map)) =
+    Node (Node (Node Leaf 1 10 18 1 Leaf) 2 20 19 2 (Node Leaf 3 33 20 1 Leaf)) 4 44 21 4
+         (Node (Node Leaf 7 70 22 1 Leaf) 8 80 23 3 (Node Leaf 9 90 24 2 (Node Leaf 100 1 25 1 Leaf)))
+  /\ sz (m_sel (run FMap m_init ex_ops_map)) = 8%nat.
+Proof. vm_compute. split; reflexivity. Qed.
+
+(* a reachable MultiMap state: runs of equal keys, hinted inserts inside a run *)
+Example ex_reachable_multi :
+  inorder (tr (m_sel (run FMulti m_init ex_ops_multi))) =
+    [(3, 3, 2%nat); (3, 6, 5%nat); (5, 2, 1%nat); (5, 4, 3%nat); (5, 5, 4%nat); (7, 7, 6%nat)].
+Proof. vm_compute. reflexivity. Qed.
+
+(* the reference, run on the same history with the model's choices, produces these results *)
+Example ex_trace_multi :
+  fst (s_trace FMulti s_init ex_ops_multi (m_choices FMulti m_init ex_ops_multi)) =
+    [RIter (IAt 0 (5, 1, 0%nat)); RIter (IAt 1 (5, 2, 1%nat)); RIter (IAt 0 (3, 3, 2%nat));
+     RIter (IAt 3 (5, 4, 3%nat)); RIter (IAt 4 (5, 5, 4%nat)); RIter (IAt 1 (3, 6, 5%nat));
+     RIter (IAt 6 (7, 7, 6%nat)); RIter (IAt 2 (3, 8, 7%nat)); RNat 4; RIter (IAt 3 (5, 1, 0%nat));
+     RNone; RNat 3; RIter (IAt 0 (3, 3, 2%nat)); RIter (IAt 2 (5, 2, 1%nat)); RVal (Some 7)].
+Proof. vm_compute. reflexivity. Qed.
+
+(* the reference does reject a wrong position (the relational input is checked, not trusted) *)
+Example ex_reference_rejects :
+  snd (spec_step FMulti (abs (run FMulti m_init ex_ops_multi)) (OHint 0 4 0) 0) = RBad.
+Proof. vm_compute. reflexivity. Qed.
+
+(* re-balancing does something: a left-left chain of height 3 becomes a perfect tree of height 2 *)
+Example ex_rebal :
+  rebal (mk (Node (Node Leaf 1 0 0 1 Leaf) 2 0 1 2 Leaf) 3 0 2 Leaf) =
+    Node (Node Leaf 1 0 0 1 Leaf) 2 0 1 2 (Node Leaf 3 0 2 1 Leaf).
+Proof. vm_compute. reflexivity. Qed.
+
+(* cost: 5 comparisons to find key 100 among the 8 entries of ex_reachable_map; the bound is 8 *)
+Example ex_cost :
+  snd (snd (step FMap (run FMap m_init ex_ops_map) (OFind 100))) = 5%nat /\ cost_bound 8 = 8.
+Proof. vm_compute. split; reflexivity. Qed.
+
+(* the Fibonacci bound is tight: the sparsest tree of height 3 has fib 5 - 1 = 4 nodes *)
+Example ex_fib_tight :
+  let t := Node (Node (Node Leaf 1 0 0 1 Leaf) 2 0 1 2 Leaf) 3 0 2 3 (Node Leaf 4 0 3 1 Leaf) in
+  ht t = 3%nat /\ size t = 4%nat /\ fib (ht t + 2) = (size t + 1)%nat.
+Proof. vm_compute. repeat split; reflexivity. Qed.
